@@ -174,7 +174,7 @@ PROPS = {
     ),
     "C05": dict(
         retry=True,
-        props_files=["GoHeader/Props/C05.lean"], gen=[],
+        props_files=["GoHeader/Props/C05.lean", "GoHeader/Props/C05Tie.lean"], gen=["rangeDegenerate"],
         canon=lambda l: re.sub(r" trace=.*", "", l).split(" => ")[0], nontrivial=lambda l: "trace=-" not in l,
         rule="real p2p.Exchange.GetRangeByHeight against 1..4 scripted tracked peers on a mocknet; per (peer, request index) one behaviour out of: honest, prefix, shifted origin, previous chunk, reordered, gapped, forged header, wrong chain, "
              "oversized, unknown status, garbage, NOT_FOUND, empty, reset, hang; chunk sizes {1,2,3,4,5,8,64}; degenerate (from,to); every request each peer received is logged with a global sequence number; "
@@ -188,7 +188,7 @@ PROPS = {
     ),
     "C18": dict(
         retry=True,
-        props_files=["GoHeader/Props/C18.lean", "GoHeader/Props/C05.lean"], gen=[],
+        props_files=["GoHeader/Props/C18.lean", "GoHeader/Props/C05.lean", "GoHeader/Props/C05Tie.lean"], gen=["rangeDegenerate"],
         canon=lambda l: re.sub(r" trace=.*", "", l).split(" => ")[0], nontrivial=lambda l: "trace=-" not in l,
         rule="honest scripted peers holding the chain up to per-peer heights, benign faults (NOT_FOUND, prefix answers, one timeout, reset, empty) leaving one capable peer; chunk sizes 1..8,16,33,64 x amounts {1, chunk-1, chunk, chunk+1, 2*chunk+1, 3*chunk}, "
              "1..5 peers, seeded random availability; the call must return exactly from+1..to-1; distinct = distinct (from, to, chunk, peer scripts); non-trivial = at least one sub-request reached a peer",
